@@ -315,3 +315,108 @@ Proof.
   pose proof (emit_all_forall (line_of _) _ _ (emit_line_of _ _) _ _ H3) as Hl.
   eapply Forall_impl; [|exact Hl]. intros l (o & _ & e1 & -> & _). apply event_bytes_no_crlf.
 Qed.
+
+(* ---- 4. PING ------------------------------------------------------------------------------------------ *)
+
+(* the whole client on a PING event: state handlers answer, every other stage is silent *)
+Lemma client_step_ping ccfg cs e : State.e_cmd e = PingNick.s_PING ->
+  ClientStep.client_step ccfg cs e =
+    Ok (ClientStep.mkClientState (State.handle_tags (ClientStep.cs_state cs) e) (ClientStep.cs_cap cs),
+        [ClientStep.CSend (State.OutSend State.s_PONG [State.last_param e])]).
+Proof.
+  intros Hc. unfold ClientStep.client_step.
+  assert (H1 : State.handle (ClientStep.cc_state ccfg) (ClientStep.cs_state cs) e =
+               Ok (State.handle_tags (ClientStep.cs_state cs) e, [State.OutSend State.s_PONG [State.last_param e]])).
+  { unfold State.handle, State.cmd_is. rewrite Hc. reflexivity. }
+  rewrite H1. cbn [rbind].
+  assert (H2 : ClientStep.sasl_stage ccfg e = Ok []).
+  { unfold ClientStep.sasl_stage, ClientStep.is_sasl_cmd, ClientStep.is_sasl_error_cmd, State.cmd_is. rewrite Hc. reflexivity. }
+  rewrite H2. cbn [rbind].
+  assert (H3 : ClientStep.cap_stage ccfg (ClientStep.cs_cap cs) e = (ClientStep.cs_cap cs, [])).
+  { unfold ClientStep.cap_stage, State.cmd_is. rewrite Hc. reflexivity. }
+  rewrite H3.
+  assert (H4 : Ctcp.ctcp_stage (Ctcp.default_table (ClientStep.cc_env ccfg)) (ClientStep.to_ctcp_event e) = Ok []).
+  { unfold Ctcp.ctcp_stage.
+    assert (D : Ctcp.decode_ctcp (ClientStep.to_ctcp_event e) = Ok None).
+    { apply CtcpProofs.not_ctcp_exact. apply CtcpSpec.nc_command.
+      unfold ClientStep.to_ctcp_event. cbn [Ctcp.ev_command]. rewrite Hc.
+      intros [K|K]; discriminate K. }
+    rewrite D. reflexivity. }
+  rewrite H4. reflexivity.
+Qed.
+
+Theorem react_ping cfg rs line w : rs_closed rs = false ->
+  parse_event line = Ok (Some w) -> we_cmd w = PingNick.s_PING ->
+  PingNickWire.wire_valid (last (we_params w) []) = true ->
+  exists rs' l, react cfg rs line = RStep rs' [l] /\ rs_closed rs' = false /\
+    parse_event l = Ok (Some (mkWEvent None None PingNick.s_PONG [last (we_params w) []])).
+Proof.
+  intros Hcl P Hc Hv. unfold react. rewrite Hcl, P. unfold react_event.
+  rewrite (client_step_ping (rc_client cfg) (rs_client rs) (to_state_event w) Hc).
+  assert (H2 : collide_stage cfg (ClientStep.cs_state (rs_client rs)) (to_state_event w) = Ok []).
+  { unfold collide_stage. cbn [to_state_event State.e_cmd]. rewrite Hc. reflexivity. }
+  rewrite H2. cbn [reaction_outs flat_map outs_of out_of_state List.map app].
+  change (streqb State.s_PONG State.s_PONG) with true. cbv iota.
+  cbn [emit_all emit rbind app].
+  do 2 eexists. split; [reflexivity|]. split.
+  - cbn [rs_closed]. unfold ClientStep.disconnects, State.cmd_is. cbn [to_state_event State.e_cmd]. rewrite Hc. reflexivity.
+  - rewrite wire_plain by reflexivity. unfold State.last_param. cbn [to_state_event State.e_params].
+    exact (PingNickWire.pong_roundtrip _ Hv).
+Qed.
+
+(* ---- non-vacuity: a ten-line raw session --------------------------------------------------------------- *)
+
+Definition ex_cfg : react_cfg :=
+  mkReactCfg
+    (ClientStep.mkClientCfg (State.mkConfig (bs "me") (bs "user")) None
+       (Ctcp.mk_env (bs "verif 1.0") (bs "Real Name") (bs "go") (bs "os") (bs "arch") (bs "now") (bs "0s") true)
+       (Cap.mkCfg None true false false [] true None [] (bs "me") (bs "user") (bs "Real Name"))
+       CapLib.sort_strs false 0%Z)
+    None.
+
+Definition crlf : str := [13; 10].
+
+(* 001, 005, JOIN (ourselves), 353, MODE, PRIVMSG with a CTCP VERSION request, PING, NICK,
+   KICK, garbage: exactly the first fixed case of suite client.react *)
+Definition ex_lines : list str :=
+  [ bs ":irc.test 001 me :Welcome to the test network" ++ crlf;
+    bs ":irc.test 005 me NICKLEN=9 CHANMODES=b,k,l,imnpst PREFIX=(ov)@+ :are supported by this server" ++ crlf;
+    bs ":me!user@host.example JOIN #chan" ++ crlf;
+    bs ":irc.test 353 me = #chan :me @alice +bob" ++ crlf;
+    bs ":alice!a@h.example MODE #chan +v-o bob alice" ++ crlf;
+    bs ":alice!a@h.example PRIVMSG me :" ++ [1] ++ bs "VERSION" ++ [1] ++ crlf;
+    bs "PING :tok en" ++ crlf;
+    bs ":alice!a@h.example NICK carol" ++ crlf;
+    bs ":carol!a@h.example KICK #chan bob :bye" ++ crlf;
+    [0; 10] ].
+
+Example react_session_example :
+  conn_up ex_cfg /\
+  exists s, react_run ex_cfg (react_init StsState.sts_init) 0 ex_lines = Ok s /\
+    ss_outs s =
+      [ []; [];
+        [bs "WHO #chan %tacuhnr,1"; bs "MODE #chan"];
+        []; [];
+        [bs "NOTICE alice :" ++ [1] ++ bs "VERSION verif 1.0" ++ [1]];
+        [bs "PONG :tok en"];
+        []; [] ] /\
+    ss_end s = ParseFailed 9 /\
+    RInv (ss_state s) /\
+    List.map (fun kv => (fst kv, State.c_users (snd kv))) (State.st_channels (ClientStep.cs_state (rs_client (ss_state s)))) =
+      [(bs "#chan", [bs "carol"; bs "me"])] /\
+    State.st_nick (ClientStep.cs_state (rs_client (ss_state s))) = bs "me".
+Proof.
+  split; [reflexivity|].
+  destruct (react_run_ok ex_cfg eq_refl ex_lines (react_init StsState.sts_init) 0 (react_init_inv _)) as (s & H & I & _).
+  exists s. split; [exact H|].
+  assert (E : react_run ex_cfg (react_init StsState.sts_init) 0 ex_lines = Ok s) by exact H.
+  vm_compute in E. injection E as <-.
+  split; [vm_compute; reflexivity|]. split; [reflexivity|]. split; [exact I|].
+  split; vm_compute; reflexivity.
+Qed.
+
+(* the hypotheses of react_ping are satisfiable: line 6 of the session *)
+Example react_ping_example :
+  exists w, parse_event (bs "PING :tok en" ++ crlf) = Ok (Some w) /\ we_cmd w = PingNick.s_PING /\
+            PingNickWire.wire_valid (last (we_params w) []) = true /\ last (we_params w) [] = bs "tok en".
+Proof. eexists. split; [vm_compute; reflexivity|]. repeat split. Qed.
